@@ -40,6 +40,7 @@ using namespace smt;
 
 static std::unique_ptr<sat_core> sat;
 static std::string hooks;
+static int last_hook = -1; // kind of the most recent verif_hook call (-1: none since the command started)
 
 struct probe : public theory
 {
@@ -140,6 +141,7 @@ static void fresh()
     hooks.clear();
     sat->verif_hook = [](int kind, const std::vector<lit> &ls)
     {
+        last_hook = kind;
         if (!hooks.empty())
             hooks += '|';
         hooks += std::to_string(kind) + ":";
@@ -217,6 +219,7 @@ int main()
             ls.push_back(mk(x));
         const bool qe = sat->prop_q.empty();
         bool r = true;
+        last_hook = -1;
         if (cmd == "tc" || cmd == "tx")
         {
             const bool is_tx = cmd == "tx";
@@ -340,7 +343,9 @@ int main()
             {
                 r = sat->check(ls);
                 dump(r ? "1" : "0");
-                dead = !r && root_conflict();
+                // definitely inconsistent: a clause is false with no decision standing, or the call ended with a theory conflict
+                // reported at root level (the last hook of the call is the conflict: nothing was learnt from it)
+                dead = !r && (root_conflict() || (sat->root_level() && last_hook == 3));
             }
         }
         else if (cmd == "s")
